@@ -8,6 +8,7 @@ Labelled `bounded` in the evidence; it decides C20 only over the trees it enumer
 import contextlib
 import io
 import itertools
+import random
 import re
 
 from asynciojobs import AbstractJob, PureScheduler, Scheduler
@@ -421,6 +422,7 @@ LABELS = ['a', 'x"y', 'l1\nl2', 'a;b', 'a->b', '{k}', '[k]', 'café 漢', 'a,b',
 class DJ(AbstractJob):
     def __init__(self, name, **kw):
         self.name = name
+        self._bt = int(name[1:]) if name[1:].isdigit() else 10 ** 9
         super().__init__(**kw)
 
     def __repr__(self):
@@ -447,10 +449,14 @@ def build_tree(spec, counter=None, top=True):
         mem[i].requires(mem[j])
     if top:
         if spec.get('pure'):
-            return PureScheduler(*mem)
-        return Scheduler(*mem, label=spec.get('label', 'top'))
-    return Scheduler(*mem, label=spec.get('label', 's'), critical=spec.get('critical', False),
-                     forever=spec.get('forever', False))
+            out = PureScheduler(*mem)
+        else:
+            out = Scheduler(*mem, label=spec.get('label', 'top'))
+    else:
+        out = Scheduler(*mem, label=spec.get('label', 's'), critical=spec.get('critical', False),
+                        forever=spec.get('forever', False))
+    out._bt = next(counter)         # creation rank: a reproducible order on the objects of a tree
+    return out
 
 
 def has_empty_required_or_requiring(spec):
@@ -543,13 +549,62 @@ def _cases(tier, rng):
     # 4. random trees up to depth 3
     for _ in range(400 if tier == 'quick' else 6000):
         yield {'kind': 'c20-tree', 'spec': random_spec(rng, 0, 3)}
+    # 5. trees that have been displayed or queried before, then edited (a job removed, a job added behind another), then
+    #    drawn: nothing an earlier call computed may show.  A fixed shape first (the exit of a required nested scheduler is
+    #    itself a nested scheduler), then random trees; drawn from a generator of their own
+    aux = random.Random(rng.random())
+    deep = {'members': [{'members': [{'members': [atom('c1'), atom('c2')], 'edges': [[1, 0]]}, atom('m')], 'edges': [[0, 1]]},
+                        atom('b')], 'edges': [[1, 0]]}
+    for k in range(8):
+        yield {'kind': 'c20-stale', 'spec': deep, 'seed': k}
+    for _ in range(150 if tier == 'quick' else 3000):
+        yield {'kind': 'c20-stale', 'spec': random_spec(aux, 0, 3), 'seed': aux.randrange(1 << 30)}
 
 
 KNOWN_EMPTY = '[empty-nested-scheduler-in-requirement] '
 
 
+def run_stale(case):
+    r = random.Random(case['seed'])
+    top = build_tree(case['spec'])
+    buf = io.StringIO()
+    with contextlib.redirect_stdout(buf):
+        for q in r.sample(['list', 'dot', 'cycles', 'entry', 'exit'], r.randint(1, 3)):
+            try:
+                {'list': top.list, 'dot': top.dot_format, 'cycles': top.check_cycles, 'entry': top.entry_jobs,
+                 'exit': top.exit_jobs}[q]()
+            except Exception:                                       # pylint: disable=broad-except
+                pass
+    scheds = sorted([top] + [x for x in all_under(top) if is_sched(x)], key=lambda x: x._bt)
+    for _ in range(r.randint(1, 2)):
+        s_ = r.choice(scheds)
+        atoms = [j for j in s_.jobs if not is_sched(j)]
+        if len(atoms) >= 2 and r.random() < 0.7:
+            # (another atomic job stays: no scheduler becomes hollow, which is the known finding)
+            gone = r.choice(sorted(atoms, key=lambda j: j._bt))
+            s_.remove(gone)
+            for j in s_.jobs:
+                j.required.discard(gone)
+        else:
+            # (not behind a hollow nested scheduler: the known finding again)
+            solid = [j for j in s_.jobs if not is_sched(j) or atoms_under(j)]
+            if solid:
+                new = DJ('late%d' % r.randrange(10 ** 6), label='late')
+                new.requires(r.choice(sorted(solid, key=lambda j: j._bt)))
+                s_.add(new)
+    errs = check_dot(top) + check_list(top)
+    return errs
+
+
 def run(case):
     spec = case['spec']
+    if case['kind'] == 'c20-stale':
+        errs = run_stale(case)
+        if not errs:
+            return None
+        tag = KNOWN_EMPTY if has_empty_required_or_requiring(spec) and all(
+            ('no entry found' in e or 'no exit found' in e) for e in errs) else ''
+        return tag + 'after earlier queries and an edit: ' + '; '.join(errs[:3])
     errs = []
     fns = [check_dot, check_list]
     if case.get('dot'):
